@@ -42,6 +42,8 @@ class MNode:
         self.args = args
         self.options = []      # (name, value, id)
         self.elems = []        # ("text", [(id, line)...]) | ("field", id, name, text) | ("list", kind, [(id, item)]) | ("dir", MNode)
+        #                        | ("sec", MNode) for a sub-section writer (depth 0, .sec_title/.sec_level/.sec_id set)
+        self.sec_level = None
 
 
 class Prop(BaseProp):
@@ -49,7 +51,7 @@ class Prop(BaseProp):
     ANCHORS = ['cminx.rstwriter:get_indents', 'cminx.rstwriter:Directive.to_text', 'cminx.rstwriter:RSTWriter.to_text', 'cminx.rstwriter:Heading.build_heading_string', 'cminx.rstwriter:Directive.option', 'cminx.rstwriter:RSTWriter.clear']
     LEVEL = "exploration"
     RULE = ("random programs over the public writer API (text incl. multi-line with own leading spaces, field, "
-            "bulleted/enumerated lists, directives nested to depth 8 with arguments, options, title changes, clear(), "
+            "bulleted/enumerated lists, directives nested to depth 8 with arguments, options, sub-sections (nested, re-titled), title changes, clear(), "
             "str()/to_text() at random points 1-3 times in a row) for 9 titles x 5 header lists x section levels; "
             "monitors: object-graph snapshot before/after every serialisation, consecutive serialisations equal, "
             "title frame, every id-carrying line indented by exactly 3*depth, options directly under their heading, "
@@ -57,7 +59,7 @@ class Prop(BaseProp):
             "depth>=1 and >=2 serialisations")
     ASSUMPTIONS = ["blank-line conventions are not asserted", "multi-line fields and list items are not generated",
                    "clear() on directives: only that later additions appear and earlier content does not",
-                   "sections/tables/doctests are outside the quantifier"]
+                   "tables/doctests are outside the quantifier; sub-sections: only the title frame, order and purity are asserted"]
     HEADLINE = ["programs", "serialisations", "purity_snapshots_compared", "id_lines_checked", "option_blocks_checked",
                 "title_changes", "clears"]
 
@@ -91,6 +93,7 @@ class Prop(BaseProp):
         from cminx.rstwriter import RSTWriter
         res = CaseResult()
         headers = rng.choice(HEADERS)
+        self.headers_now = headers
         level = rng.randrange(len(headers))
         settings = runner.make_settings(rst={"headers": headers})
         title = rng.choice(TITLES)
@@ -102,6 +105,7 @@ class Prop(BaseProp):
             return counter[0]
         w = RSTWriter(title, level, settings)
         root = MNode(0)
+        root.sec_level = level
         live = [(w, root)]          # containers that can receive operations
         state = {"title": title}
 
@@ -126,7 +130,7 @@ class Prop(BaseProp):
         for _ in range(n_ops):
             obj, mn = rng.choice(live)
             op = rng.choice(["text", "text", "field", "bullets", "enum", "directive", "directive", "option", "title", "clear",
-                             "str", "str", "rename"])
+                             "str", "str", "rename", "section", "sectitle"])
             d = mn.depth
             if op == "text":
                 t = rng.choice(TEXTS)
@@ -178,6 +182,24 @@ class Prop(BaseProp):
                 mn.name = rng.choice(["note", "warning", "function", "py:method", "tip"])
                 obj.title = mn.name
                 res.count("directive_renames")
+            elif op == "section":
+                # a sub-section: its title is framed by the configured character of the next section level
+                if mn.sec_level is None or mn.sec_level + 1 >= len(headers):
+                    continue
+                i = nid()
+                t = rng.choice(["Sub", "a longer sub title", "ünï", "x"]) + f" {{T{i}}}"
+                sub = obj.section(t)
+                child = MNode(0)
+                child.sec_level, child.sec_title, child.sec_id = mn.sec_level + 1, t, i
+                mn.elems.append(("sec", child))
+                live.append((sub, child))
+                res.count("sections_added")
+            elif op == "sectitle":
+                if mn.sec_level is None or mn is root:
+                    continue
+                mn.sec_title = rng.choice(["Renamed", "r", "renamed to something long"]) + f" {{T{mn.sec_id}}}"
+                obj.title = mn.sec_title
+                res.count("section_title_changes")
             elif op == "title":
                 state["title"] = rng.choice(TITLES)
                 w.title = state["title"]
@@ -190,7 +212,7 @@ class Prop(BaseProp):
 
                 def collect(m):
                     for e in m.elems:
-                        if e[0] == "dir":
+                        if e[0] in ("dir", "sec"):
                             dropped.add(id(e[1]))
                             collect(e[1])
                 collect(mn)
@@ -228,6 +250,9 @@ class Prop(BaseProp):
                 elif e[0] == "list":
                     for i, t in e[2]:
                         exp.append((i, m.depth, "list", t))
+                elif e[0] == "sec":
+                    exp.append((e[1].sec_id, 0, "section", e[1]))
+                    walk(e[1])
                 else:
                     c = e[1]
                     exp.append((c.hid, m.depth, "heading", c))
@@ -254,7 +279,14 @@ class Prop(BaseProp):
         for (i, ln, l), (_, d, kind, extra) in zip(got, exp):
             res.count("id_lines_checked")
             ind = " " * (3 * d)
-            if kind == "text":
+            if kind == "section":
+                res.count("section_titles_checked")
+                fr = self.headers_now[extra.sec_level] * len(extra.sec_title)
+                around = [lines[ln - 1] if ln else None, l, lines[ln + 1] if ln + 1 < len(lines) else None]
+                if around != [fr, extra.sec_title, fr]:
+                    res.violate("section-title-frame", f"sub-section of level {extra.sec_level}: lines {around!r}, expected "
+                                f"{[fr, extra.sec_title, fr]!r}", wit)
+            elif kind == "text":
                 if l != ind + extra:
                     res.violate("paragraph-line-indent", f"line {l!r}, expected {ind + extra!r} (depth {d})", wit)
             else:
